@@ -68,7 +68,8 @@ pub fn run(p: &Prog) -> ExResult<Expr> {
         Prog::ReDeep(p) => { let t = match run(p)? { Expr::F(f) => f.unparse().to_string(), Expr::D(d) => d.unparse().to_string() }; Expr::D(DE::parse(leak(&t))?) }
         Prog::SerdeFlat(p) => { let f = match run(p)? { Expr::F(f) => f, Expr::D(d) => FE::from_deepex(d)? };
             let js = serde_json::to_string(&f).map_err(|e| exmex::ExError::new(&format!("serialize: {e}")))?;
-            let back: FE = serde_json::from_str(leak(&js)).map_err(|e| exmex::ExError::new(&format!("deserialize: {e}")))?;
+            // borrowed strings (from_str) and transient ones (from_reader) take different visitor methods
+            let back: FE = if js.len() % 2 == 0 { serde_json::from_str(leak(&js)) } else { serde_json::from_reader(leak(&js).as_bytes()) }.map_err(|e| exmex::ExError::new(&format!("deserialize: {e}")))?;
             Expr::F(back) }
         Prog::Subs(p, m) => {
             let a = run(p)?;
